@@ -135,7 +135,7 @@ func alphabetKeys(cfg Cfg) []Op {
 
 func runC03(c *Ctx) {
 	depth := 3
-	cfgs := []Cfg{{}, {Cache: true, Index: 1}, {Async: 1, Index: 2}, {Compress: true, Lower: true, MapRev: true}, {Index: 3}}
+	cfgs := []Cfg{{}, {Cache: true, Index: 1}, {Async: 1, Index: 2}, {Compress: true, Lower: true, MapRev: true}, {Index: 3}, {Index: 4}, {Index: 5, Cache: true}, {Index: 6, Async: 1}}
 	depth = 4
 	if c.Tier == "thorough" {
 		depth = 5
@@ -171,7 +171,7 @@ func runC03(c *Ctx) {
 		e.Run()
 	}
 	c.Meta(map[string]interface{}{
-		"rule":    "BFS over histories specialised to key collisions: two unique fields (string with upper: case variants collide; int64 incl. two values differing only beyond 2^53), 5 key classes, updates onto foreign/own/released keys, batches with internal conflicts, reopen/abandon anywhere. Each call's accept/reject decision is compared with the reference (IsUnique iff a different stored object holds the canonical value) in both directions; invariant on All() in every state. Non-trivial = histories ending in a write.",
+		"rule":    "BFS over histories specialised to key collisions: two unique fields (string with upper: case variants collide; int64 incl. two values differing only beyond 2^53), in three more configurations a third one (uint64 incl. 2^53+1 and the maximum; float64 incl. -0 and the extremes; time.Time incl. two zones), 5 key classes, updates onto foreign/own/released keys, batches with internal conflicts, reopen/abandon anywhere. Each call's accept/reject decision is compared with the reference (IsUnique iff a different stored object holds the canonical value) in both directions; invariant on All() in every state. Non-trivial = histories ending in a write.",
 		"configs": cfgs, "depth": depth,
 	})
 }
